@@ -2,7 +2,7 @@
    Statements only; proofs in Store/ProofsHash.v and Store/ProofsTop.v.
    [Inv st]: for every edge, hash = XOR of the CRCs of the node points of its
    lower node, of its edge points, and of the hashes of all child edges. *)
-From Verif Require Import Base.Bytes Store.GraphCount Store.GraphWalk Store.Model Store.ProofsRows Store.ProofsHash Store.ProofsTop.
+From Verif Require Import Base.Bytes Store.GraphCount Store.GraphWalk Store.Model Store.ProofsRows Store.ProofsHash Store.ProofsTop Store.ProofsMerkle.
 From Verif Require Import Properties.StoreExample.
 Local Open Scope N_scope.
 
@@ -24,6 +24,22 @@ Theorem C03_edge_write :
     edge_points st id par pts = Ok st' -> wf st' /\ Inv st'.
 Proof. exact edge_points_inv. Qed.
 Print Assumptions C03_edge_write.
+
+
+(* equal content gives equal hashes whatever history produced it: in every reachable state the stored
+   hash of every edge is the from-scratch Merkle hash [merkle], a function of the current content
+   (node points, edge points, graph shape) that consults no stored hash *)
+Theorem C03_unique :
+  forall st, wf st -> Inv st ->
+    forall e, In e (s_edges st) -> e_hash e = merkle (S (length (s_edges st))) st e.
+Proof. exact hash_unique. Qed.
+Print Assumptions C03_unique.
+
+(* a store verification (recompute every hash from the stored child hashes) finds nothing to repair
+   exactly when the equation holds *)
+Theorem C03_verify_clean : forall st, Inv st <-> verify st = [].
+Proof. exact verify_clean. Qed.
+Print Assumptions C03_verify_clean.
 
 (* a point's checksum depends on exactly its time, type, key, text and value *)
 Theorem C03_crc_depends_exactly :
